@@ -1,11 +1,23 @@
 // t_mem.cpp - explorer C for memory operations.
 //   default build        : C08, loads / stores / gathers / scatters / lane access move exactly the right lanes (values + canaries)
 //   -DVX_FOOTPRINT=1     : C09, the same calls with the buffer flush against PROT_NONE / PROT_READ pages, wild inactive indices
+//   -DVX_ASAN_FOOTPRINT=1: C09, the contiguous calls of the default build under AddressSanitizer with every byte outside [p, p + min(n,W)) poisoned:
+//                          sees accesses that stay inside the page and leave the values alone (a full-width read-modify-write: seed C09-c).
+//                          Plain vector loads/stores are instrumented; masked-move builtins are not, so a correct masked store stays silent.
 #include "vx_core.hpp"
 #include "vx_domains.hpp"
 #include <sys/mman.h>
 #include <unistd.h>
+#include <fcntl.h>
 #include <map>
+#ifdef VX_ASAN_FOOTPRINT
+#include <sanitizer/asan_interface.h>
+static volatile unsigned long g_asan_errors;
+extern "C" void __asan_on_error() { ++g_asan_errors; }
+extern "C" const char* __asan_default_options() {
+    return "halt_on_error=0:detect_leaks=0:handle_segv=0:handle_sigbus=0:handle_sigfpe=0:handle_sigill=0:handle_abort=0:print_summary=0:symbolize=0:detect_stack_use_after_return=0";
+}
+#endif
 
 namespace vx {
 
@@ -25,6 +37,13 @@ struct Arena {
     void open() { protect(PROT_READ | PROT_WRITE, PROT_READ | PROT_WRITE); }
     void fill() { open(); std::memset(base, CANARY, 3 * PAGE); }
     unsigned char* page() { return base + PAGE; }
+#ifdef VX_ASAN_FOOTPRINT
+    void poison_outside(const unsigned char* lo, const unsigned char* hi) {
+        ASAN_POISON_MEMORY_REGION(base, 3 * PAGE);
+        if (hi > lo) ASAN_UNPOISON_MEMORY_REGION(lo, hi - lo);  // bytes of lo's 8-byte granule before lo become accessible too (no way to say otherwise)
+    }
+    void unpoison() { ASAN_UNPOISON_MEMORY_REGION(base, 3 * PAGE); }
+#endif
     // number of non-canary bytes outside [lo, hi) in the whole arena (all pages must be readable)
     std::size_t stray(const unsigned char* lo, const unsigned char* hi) {
         std::size_t n = 0;
@@ -48,6 +67,8 @@ struct Mem {
         if (it != stats.end()) return *it->second;
 #ifdef VX_FOOTPRINT
         Stat& s = new_stat(subject, op, "every n in 0..W+1 x buffer of exactly min(n,W) elements flush against PROT_NONE / PROT_READ pages on either side");
+#elif defined(VX_ASAN_FOOTPRINT)
+        Stat& s = new_stat(subject, op, "every n in 0..W+2 x every element-aligned offset in a 64-byte line x 2 payload patterns, every byte outside [p, p+min(n,W)) poisoned for AddressSanitizer");
 #else
         Stat& s = new_stat(subject, op, "every n in 0..W+2 x every element-aligned offset in a 64-byte line x 2 payload patterns, canaries around");
 #endif
@@ -179,8 +200,17 @@ struct Mem {
                         if (!is_store) put(p, W + 4, pat);
                         Call c;
                         c.kind = kind; c.p = p; c.n = n; c.v = payload_vec(pat);
-                        int sig = guarded(c);
                         const char* op = kind_name(kind);
+#ifdef VX_ASAN_FOOTPRINT
+                        A.poison_outside(reinterpret_cast<unsigned char*>(p), reinterpret_cast<unsigned char*>(p + m));
+                        const unsigned long e0 = g_asan_errors;
+#endif
+                        int sig = guarded(c);
+#ifdef VX_ASAN_FOOTPRINT
+                        const unsigned long e1 = g_asan_errors;
+                        A.unpoison();
+                        if (e1 != e0) fail(op, key(kind, n, off, pat, 7), desc("bytes outside [p, p+min(n,W)) were read or written (AddressSanitizer)", n, off, pat, "poisoned surroundings"));
+#endif
                         ok(op, n != 0 && n != W);
                         if (sig) { fail(op, key(kind, n, off, pat, 0), desc("signal", n, off, pat, "open")); continue; }
                         if (!is_store) {
@@ -203,7 +233,16 @@ struct Mem {
                             CtCall c;
                             c.kind = kind; c.p = p; c.n = n; c.v = payload_vec(pat);
                             static const char* names[] = {"load_ct", "aligned_load_ct", "store_ct", "aligned_store_ct"};
+#ifdef VX_ASAN_FOOTPRINT
+                            A.poison_outside(reinterpret_cast<unsigned char*>(p), reinterpret_cast<unsigned char*>(p + m));
+                            const unsigned long e0 = g_asan_errors;
+#endif
                             int sig = guarded(c);
+#ifdef VX_ASAN_FOOTPRINT
+                            const unsigned long e1 = g_asan_errors;
+                            A.unpoison();
+                            if (e1 != e0) fail(names[kind], key(10 + kind, n, off, pat, 7), desc("bytes outside [p, p+N) were read or written (AddressSanitizer)", n, off, pat, "poisoned surroundings"));
+#endif
                             ok(names[kind], n != 0 && n != W);
                             if (sig) { fail(names[kind], key(10 + kind, n, off, pat, 0), desc("signal", n, off, pat, "open")); continue; }
                             if (!is_store) {
@@ -216,7 +255,9 @@ struct Mem {
                             }
                         }
                 }
+#ifndef VX_ASAN_FOOTPRINT
         lane_access();
+#endif
     }
 
     // to_array / array constructor / extract<I> / insert<I>
@@ -431,7 +472,9 @@ struct Mem {
 #else
         run_values();
 #endif
-        run_gather_scatter(std::integral_constant<bool, (sizeof(S) >= 4)>());
+#ifndef VX_ASAN_FOOTPRINT
+        run_gather_scatter(std::integral_constant<bool, (sizeof(S) >= 4)>());  // hardware gathers/scatters are builtins AddressSanitizer does not instrument
+#endif
         for (std::map<std::string, Stat*>::iterator it = stats.begin(); it != stats.end(); ++it)
             if (it->second->samples.empty()) add_sample(*it->second, "{\"subject\":" + jstr(subject) + ",\"op\":" + jstr(it->first) + ",\"calls\":" + u64s(it->second->evals) + "}");
         arena().open();
@@ -451,6 +494,9 @@ struct PerType {
 
 int main(int argc, char** argv) {
     if (int rc = vx::parse_args(argc, argv)) return rc;
+#ifdef VX_ASAN_FOOTPRINT
+    { int fd = open("/dev/null", O_WRONLY); if (fd >= 0) dup2(fd, 2); }  // AddressSanitizer's reports; the verdict is the error count per call
+#endif
 #if VX_PART < 100
     vx::for_each_int_type<vx::PerType>();
 #else
@@ -465,6 +511,8 @@ int main(int argc, char** argv) {
     }
 #ifdef VX_FOOTPRINT
     return vx::write_results("t_memfp", vx::part_name());
+#elif defined(VX_ASAN_FOOTPRINT)
+    return vx::write_results("t_memasan", vx::part_name());
 #else
     return vx::write_results("t_mem", vx::part_name());
 #endif
